@@ -213,3 +213,36 @@ pub fn blk_movers<const NN: usize, const ROWS: usize, const LS: usize, const LD:
     same(&d1, &d2, "blk mover");
     vsym::reached();
 }
+
+/// C17-A3: the same integer convolution / block-mover kernels called on slices that ARE their
+/// allocation (no slack): Kani checks every pointer computed by the kernels.
+pub fn conv_by_const_exact<const AS: usize, const BS: usize, const LA: usize>(k: usize) {
+    use crate::fft64_conv::*;
+    let a = vsym::arr_i64::<LA>();
+    let b = vsym::arr_i64::<BS>();
+    let mut i = 0;
+    while i < LA {
+        vsym::assume(a[i] >= -8 && a[i] <= 8);
+        i += 1;
+    }
+    let mut i = 0;
+    while i < BS {
+        vsym::assume(b[i] >= -8 && b[i] <= 8);
+        i += 1;
+    }
+    let mut d = [0i64; 8];
+    unsafe { i64_convolution_by_const_1coeff_avx(k, &mut d, &a, AS, &b) };
+    vsym::reached();
+}
+
+pub fn blk_movers_exact<const NN: usize, const ROWS: usize, const LS: usize, const LD: usize, const SAVE: bool>(blk: usize) {
+    use crate::fft64_conv::*;
+    let src = vsym::arr_i64::<LS>();
+    let mut d = vsym::arr_i64::<LD>();
+    if SAVE {
+        unsafe { i64_save_1blk_contiguous_avx(NN, 0, ROWS, blk, &mut d, &src) };
+    } else {
+        unsafe { i64_extract_1blk_contiguous_avx(NN, 0, ROWS, blk, &mut d, &src) };
+    }
+    vsym::reached();
+}
